@@ -342,9 +342,9 @@ func cmdCheck(args []string) int {
 			}
 		}
 	}
-	if len(retry) > 0 && len(retry) <= 16 {
+	if len(retry) > 0 && len(retry) <= 10 {
 		ropt := dopt
-		ropt.TimeoutS = timeout * 3
+		ropt.TimeoutS = timeout * 2
 		ropt.Workers = 1
 		for _, o := range retry {
 			o.Result = ""
